@@ -18,7 +18,7 @@ run() { # id file sed-expr description
   local t1=$(date +%s)
   git checkout -- .
   local n=$(grep -c '^VIOLATION' "$log")
-  local verdict=MISSED; [ $rc -eq 1 ] && [ $n -gt 0 ] && verdict=detected
+  local verdict="not reported"; [ $rc -eq 1 ] && [ $n -gt 0 ] && verdict=detected; [ $rc -eq 2 ] && verdict=harness-error
   grep -q "NOT EXPLORED" "$log" && verdict=not-explored
   echo "| $id | $desc | $verdict ($((t1-t0))s) |"
 }
@@ -27,7 +27,7 @@ CU=prover/circuit_utils.go
 run C01 $CU 's|\tapi.AssertIsEqual(root, gadget.PrevRoot)|\t_ = root|' "InsertionRound: emptiness check dropped"
 run C01 $CU 's|currentIndex := api.Add(gadget.StartIndex, i)|currentIndex := api.Add(gadget.StartIndex, i+1)|' "InsertionProof: index off by one"
 run C01 $CU 's|PrevRoot: prevRoot,|PrevRoot: gadget.PreRoot,|' "InsertionProof: running root not threaded (needs batch>=2)"
-run C01 $CU 's|\tapi.AssertIsBoolean(gadget.Direction)|\t_ = gadget.Direction|' "ProofRound: direction bit not boolean-constrained (only a dishonest prover sees it)"
+run C01 $CU 's|\tapi.AssertIsBoolean(gadget.Direction)|\t_ = gadget.Direction|' "ProofRound: AssertIsBoolean(Direction) dropped [EQUIVALENT in context: the bits come from api.ToBinary, which already constrains them; expected: not reported]"
 run C01 prover/insertion_circuit.go 's|\tapi.AssertIsEqual(root, circuit.PostRoot)|\t_ = root|' "InsertionMbuCircuit: final root not compared with PostRoot"
 run C02 $CU 's|api.ToBinary(gadget.Index, gadget.Depth+1)|api.ToBinary(gadget.Index, gadget.Depth+2)|' "DeletionRound: index one bit too wide"
 run C02 $CU 's|preRootCorrectOrSkip := api.Or(preRootCorrect, skipFlag)|preRootCorrectOrSkip := api.Or(preRootCorrect, api.Or(skipFlag, currentPath[0]))|' "DeletionRound: odd indices skip the membership check"
@@ -51,7 +51,7 @@ run C11 prover/marshal.go '/func (ps \*ProvingSystem) WriteRawTo/,/^}/{s/binary.
 run C12 prover/deletion_circuit.go 's|if circuit.Depth > 31 {|if circuit.Depth > 32 {|' "deletion depth guard off by one"
 run C12 prover/insertion_circuit.go '/^func ImportInsertionSetup/,/^}/{s|IdComms:      make(\[\]frontend.Variable, batchSize),|IdComms:      make([]frontend.Variable, batchSize+1),|}' "ImportInsertionSetup builds a different circuit"
 run C13 server/server.go 's|^type proveHandler struct {|var sharedParams prover.InsertionParameters\n\ntype proveHandler struct {|; s|		var params prover.InsertionParameters|		params := \&sharedParams; _ = params|; s|err = json.Unmarshal(buf, \&params)|err = json.Unmarshal(buf, params)|; s|handler.provingSystem.ProveInsertion(\&params)|handler.provingSystem.ProveInsertion(params)|' "handler: insertion parameters hoisted to package scope"
-run C14 server/server.go 's|err := server.Shutdown(context.Background())|err := server.Close()|' "Shutdown replaced by Close (in-flight requests dropped)"
+run C14 server/server.go 's|err := server.Shutdown(context.Background())|_ = context.Background; err := server.Close()|' "Shutdown replaced by Close (in-flight requests dropped)"
 run C14 server/job.go 's|		for _, job := range jobs {\n			job.AwaitStop()|XX|; /for _, job := range jobs {/{n;s|job.AwaitStop()|_ = job|}' "CombineJobs does not await the jobs"
 run C15 prover/marshal.go '/keyRead, err = ps.ConstraintSystem.ReadFrom(r)/{n;n;s/if err != nil {/if err != nil \&\& err != io.EOF {/}' "UnsafeReadFrom: EOF in the constraint-system section ignored"
 run C16 prover/marshal.go 's|	if !ok {|	if !ok \&\& len(s) > 3 {|' "fromHex: short non-numbers accepted"
@@ -60,6 +60,6 @@ run C17 $CU 's|currentPath := api.ToBinary(gadget.Index, gadget.Depth)$|currentP
 run C17 prover/extractor.go 's|		BatchSize: int(batchSize),\n		Depth: int(treeDepth),\n	}\n\n	return|XX|; 0,/IdComms: make(\[\]frontend.Variable, batchSize),/s//IdComms: make([]frontend.Variable, batchSize), \/\/ deletion/' "no-op edit of the extractor (control: must NOT be reported)"
 run C18 poseidon_tree/poseidon_tree.go 's|	return index\&(1<<(depth-1)) == 0|	return index\&(1<<depth) == 0|' "indexIsLeft: wrong bit"
 run C18 poseidon_tree/poseidon_tree.go 's|		out\[node.depth()-1\] = node.left.value()|		out[node.depth()-1] = node.right.value()|' "writeProof: wrong sibling on the right branch"
-run C19 main.go 's|						return fmt.Errorf("invalid number: %s", context.String("input-hash"))|						inputHash.SetInt64(0)|' "verify: unparsable input hash treated as 0"
+run C19 main.go 's|						return fmt.Errorf("invalid number: %s", context.String("input-hash"))|						inputHash.SetInt64(0)|' "verify: unparsable input hash treated as 0 [no violation: the proof does not verify for 0, exit stays non-zero; expected: not reported]"
 run C20 server/wrapped_http/serve_mux.go 's|s.server.Handle(pattern, wrappedHandler)|_ = wrappedHandler; s.server.Handle(pattern, handler)|' "handler registered without the metrics wrapper"
-run C20 server/wrapped_http/serve_mux.go 's|}, \[\]string{"method", "code"},\n	)\n	requestDuration|XX|; 0,/\[\]string{"method", "code"},/s//[]string{"code", "method"},/' "request counter labels declared in the other order"
+run C20 server/wrapped_http/serve_mux.go 's|}, \[\]string{"method", "code"},\n	)\n	requestDuration|XX|; 0,/\[\]string{"method", "code"},/s//[]string{"code", "method"},/' "request counter labels declared in the other order [EQUIVALENT: promhttp matches labels by name; expected: not reported]"
